@@ -12,9 +12,6 @@ namespace C08
 
 variable {α : Type} [DecidableEq α]
 
-/-- the specification instance for an `Elitism` with configuration `c` -/
-def elitismSpec (c : Cfg α) : Spec α := ⟨c.le, c.cap, decide (1 ≤ c.selSize), true, fun _ xs => xs⟩
-
 theorem EInv.headBest {c : Cfg α} {offered inds : List α} (h : EInv c offered inds) :
     headBest c.le offered inds = true := by
   rw [headBest_iff]
